@@ -23,6 +23,12 @@ func (fr *Frame) envHere(what string) *Env {
 	} else if fr.top.contract != nil {
 		e.pkg = fr.contractPkg(fr.top.contract)
 	}
+	// entry values of (possibly reassigned) parameters: <name>0
+	for i, p := range fr.fn.Params {
+		if i < len(fr.params) {
+			e.vars[p.Name()+"0"] = fr.params[i]
+		}
+	}
 	return e
 }
 
